@@ -116,21 +116,27 @@ Print Assumptions C18_individuals_exact.
 
 (** A LeaspyAlgoInputError can only come from the constructor, i.e. before anything has been drawn. *)
 Theorem C18_refuses_before_generation : forall (m : model_shape) (d : design),
-  simulate_outcome gen_rounding_options gen_default_spacing m d = Refuse <-> construct d = Refuse.
-Proof. exact (refusal_is_constructor gen_rounding_options gen_default_spacing). Qed.
+  simulate_outcome gen_rounding_options gen_precision_init gen_default_spacing m d = Refuse <-> construct d = Refuse.
+Proof. exact (refusal_is_constructor gen_rounding_options gen_precision_init gen_default_spacing). Qed.
 Print Assumptions C18_refuses_before_generation.
 
-(** The precision is the first p in 0..3 whose threshold (10^-p as a float) is <= the spacing; none exactly when the
-    spacing is below the last threshold. *)
-Theorem C18_precision_none : forall ms : Q,
-  gen_precision ms = None <-> ms < (1152921504606847 # 1152921504606846976).
-Proof. intros ms. rewrite tie_precision. apply precision_none_gen. Qed.
-Print Assumptions C18_precision_none.
+(** The precision choice is TOTAL (leaspy 6d6bb6f: the value before the loop is [max(rounding_options)] = 3): every
+    spacing gets a precision in 0..3 — the first p whose threshold (10^-p as a float) is <= the spacing, and 3 (the
+    finest) exactly when the spacing is below the last threshold, 0 and negative numbers included. *)
+Theorem C18_precision_total : forall ms : Q, exists p, gen_precision ms = Some p /\ (0 <= p <= 3)%Z.
+Proof. intros ms. rewrite tie_precision. apply precision_total_gen. Qed.
+Print Assumptions C18_precision_total.
+
+Theorem C18_precision_finest : forall ms : Q,
+  ms < (1152921504606847 # 1152921504606846976) -> gen_precision ms = Some 3%Z.
+Proof. intros ms. rewrite tie_precision. apply precision_finest_gen. Qed.
+Print Assumptions C18_precision_finest.
 
 Theorem C18_precision_some : forall (ms : Q) (p : Z),
   gen_precision ms = Some p ->
-  exists l1 v l2, gen_rounding_options = (l1 ++ (p, v) :: l2)%list /\ v <= ms /\ Forall (fun pv => ms < snd pv) l1.
-Proof. intros ms p. rewrite tie_precision. apply precision_some. Qed.
+  (exists l1 v l2, gen_rounding_options = (l1 ++ (p, v) :: l2)%list /\ v <= ms /\ Forall (fun pv => ms < snd pv) l1) \/
+  (p = 3%Z /\ ms < (1152921504606847 # 1152921504606846976)).
+Proof. intros ms p. rewrite tie_precision. apply precision_some_gen. Qed.
 Print Assumptions C18_precision_some.
 
 (** Table designs (and random designs without an explicit spacing) are rounded to 3 decimals. *)
@@ -138,18 +144,30 @@ Theorem C18_default_precision : gen_precision gen_default_spacing = Some 3%Z.
 Proof. exact default_precision. Qed.
 Print Assumptions C18_default_precision.
 
-(** "Every accepted design runs to completion" is FALSE of the faithful model (F10): every spacing in [0, 0.001[ is
-    accepted by the constructor, no precision is found and [round(None)] raises after everything was generated. *)
-Theorem C18_min_spacing_refuted :
-  (exists d, accepted d /\ sim shape21 d = Crash /\
-             lookup "min_spacing_between_visits" (d_params d) = Some (VFloat (1 # 2000))) /\
-  (forall ms : Q, 0 <= ms -> ms < (1152921504606847 # 1152921504606846976) ->
-     accepted (random_design (VInt 5) [("min_spacing_between_visits"%string, VFloat ms)]) /\
-     sim shape21 (random_design (VInt 5) [("min_spacing_between_visits"%string, VFloat ms)]) = Crash).
-Proof. split; [exact min_spacing_refuted | exact min_spacing_family]. Qed.
-Print Assumptions C18_min_spacing_refuted.
+(** The former F10 family, repaired by leaspy 6d6bb6f (was [C18_min_spacing_refuted]): EVERY spacing >= 0 — in particular
+    those in [0, 0.001[, for which no option fits — is accepted by the constructor and the run completes, the ages being
+    rounded to 3 decimals. *)
+Theorem C18_min_spacing_runs : forall ms : Q, 0 <= ms ->
+  accepted (random_design (VInt 5) [("min_spacing_between_visits"%string, VFloat ms)]) /\
+  sim shape21 (random_design (VInt 5) [("min_spacing_between_visits"%string, VFloat ms)]) = Ok tt /\
+  (ms < (1152921504606847 # 1152921504606846976) -> gen_precision ms = Some 3%Z).
+Proof. exact min_spacing_runs. Qed.
+Print Assumptions C18_min_spacing_runs.
 
-(** Further accepted designs on which the run raises: model without sources, a single individual, bool
+(** Ages are rounded to the documented precision for every spacing, also below 0.001: see [ages_rounded_every_spacing]. *)
+Theorem C18_ages_rounded_every_spacing : forall ms : Q,
+  exists p, gen_precision ms = Some p /\ (0 <= p <= 3)%Z /\
+    (ms < (1152921504606847 # 1152921504606846976) -> p = 3%Z) /\
+    forall (id : string) (l : list (string * Q * list Q)),
+      StronglySorted Z.lt (ages_of p id l) /\
+      forall t v, In (id, t, v) l ->
+        In (age_key p t) (ages_of p id l) /\ Qabs (inject_Z (age_key p t) - t * pow10 p) <= 1 # 2 /\
+        age_of p (age_key p t) * pow10 p == inject_Z (age_key p t).
+Proof. exact ages_rounded_every_spacing. Qed.
+Print Assumptions C18_ages_rounded_every_spacing.
+
+(** "Every accepted design runs to completion" is still FALSE of the faithful model, but no longer because of the spacing.
+    The accepted designs on which the run raises: model without sources, a single individual, bool
     patient_number, feature count / duplicate names, integer or null IDs, empty table. *)
 Theorem C18_accepted_crash_families_refuted :
   (accepted (random_design (VInt 5) []) /\ sim {| dimension := 2; source_dimension := 0 |} (random_design (VInt 5) []) = Crash) /\
@@ -184,22 +202,33 @@ Theorem C18_refusal_class_refuted :
 Proof. exact refusal_class_refuted. Qed.
 Print Assumptions C18_refusal_class_refuted.
 
-(** What does hold: an accepted design runs to completion exactly when it is [runnable] (a genuine integer number
-    >= 2 of individuals, string non-null IDs, a model with sources, as many distinct feature names as the model has
-    features, a spacing for which a precision exists). *)
+(** What does hold.  On arbitrary stored parameters [_run] completes exactly when they are [runnable]: a genuine integer
+    number >= 2 of individuals, string non-null IDs, a model with sources, as many distinct feature names as the model has
+    features ([runnable_core]) and a numeric spacing ([spacing_ok]; no condition on its VALUE is left). *)
 Theorem C18_run_ok_iff : forall (m : model_shape) (vt : vtype) (feats : featsv) (ps : dict),
-  run_outcome gen_rounding_options gen_default_spacing m vt feats ps = Ok tt <->
-  runnable gen_rounding_options gen_default_spacing m vt feats ps.
-Proof. exact (run_ok_iff gen_rounding_options gen_default_spacing). Qed.
+  run_outcome gen_rounding_options gen_precision_init gen_default_spacing m vt feats ps = Ok tt <->
+  runnable gen_default_spacing m vt feats ps.
+Proof. exact run_ok_iff_gen. Qed.
 Print Assumptions C18_run_ok_iff.
 
-Theorem C18_accepted_runs_partial : forall (m : model_shape) (d : design) (vt : vtype) (ps : dict),
-  construct d = Ok ps -> d_visit_type d = Some vt ->
-  runnable gen_rounding_options gen_default_spacing m vt (d_features d) ps ->
-  simulate_outcome gen_rounding_options gen_default_spacing m d = Ok tt.
-Proof.
-  intros m d vt ps Hc Hv Hr. unfold simulate_outcome. rewrite Hc, Hv. now apply run_ok_iff.
-Qed.
+(** The constructor guarantees the spacing clause: every accepted design stores a numeric spacing or none. *)
+Theorem C18_accepted_spacing_ok : forall (d : design) (ps : dict) (vt : vtype),
+  construct d = Ok ps -> d_visit_type d = Some vt -> spacing_ok gen_default_spacing vt ps.
+Proof. exact (accepted_spacing_ok gen_default_spacing). Qed.
+Print Assumptions C18_accepted_spacing_ok.
+
+(** Hence the exact characterisation of the calls that complete: the accepted designs whose stored parameters are
+    [runnable_core]. *)
+Theorem C18_completes_iff : forall (m : model_shape) (d : design),
+  sim m d = Ok tt <-> exists ps, construct d = Ok ps /\ runnable_core m (d_features d) ps.
+Proof. exact sim_ok_iff. Qed.
+Print Assumptions C18_completes_iff.
+
+(** [_partial]: "accepted -> completes" needs [runnable_core]; the families of [C18_accepted_crash_families_refuted] are
+    exactly its negation.  The spacing clause that used to be needed here is gone. *)
+Theorem C18_accepted_runs_partial : forall (m : model_shape) (d : design) (ps : dict),
+  construct d = Ok ps -> runnable_core m (d_features d) ps -> sim m d = Ok tt.
+Proof. intros m d ps Hc Hr. apply sim_ok_iff. exists ps. split; assumption. Qed.
 Print Assumptions C18_accepted_runs_partial.
 
 (* ---------------------------------------------------------------- the random visit loop *)
@@ -242,9 +271,14 @@ Theorem C18_tie_final : gen_random_final = random_final.
 Proof. exact tie_final. Qed.
 Print Assumptions C18_tie_final.
 
-Theorem C18_tie_precision : forall ms, gen_precision ms = precision_of gen_rounding_options ms.
+Theorem C18_tie_precision : forall ms, gen_precision ms = precision_of gen_rounding_options gen_precision_init ms.
 Proof. exact tie_precision. Qed.
 Print Assumptions C18_tie_precision.
+
+(** the value of [rounding_precision] before the loop is the largest key of the options, 3 (it was [None] before 6d6bb6f) *)
+Theorem C18_tie_precision_init : gen_precision_init = max_key gen_rounding_options /\ gen_precision_init = Some 3%Z.
+Proof. exact tie_precision_init. Qed.
+Print Assumptions C18_tie_precision_init.
 
 Theorem C18_tie_beta : forall mu v,
   beta_params mu v = if Qeq_bool v 0 then None else Some (gen_alpha mu v, gen_beta mu v).
